@@ -25,7 +25,8 @@ import (
 
 // caseT is one input.
 type caseT struct {
-	Kind     string `json:"kind"` // eff | prev | pkgdir | prog
+	Kind     string `json:"kind"` // eff | prev | pkgdir | gopkgdir | mainroot | relpath | prog
+	Name     string `json:"name,omitempty"` // mainroot: the interpreter's input file, relative to the top of the tree
 	Disk     bool   `json:"disk,omitempty"`
 	Tree     *Tree  `json:"tree,omitempty"`
 	Root     string `json:"root,omitempty"`
@@ -59,15 +60,30 @@ func (h *harness) mktop() string {
 }
 
 // structLine renders a structural case for the driver; implStruct runs the real code on it.
-func structLine(v *view, c caseT) string {
+func structLine(v *view, c caseT, wd string) string {
 	switch c.Kind {
 	case "eff":
 		return "C16 eff " + common.Q(c.Root) + " " + common.Q(c.Path)
 	case "prev":
 		return "C16 prev " + v.fsTerm + " " + common.Q(v.abs(c.RootPath)) + " " + common.Q(c.Root)
+	case "gopkgdir":
+		return "C16 gopkgdir " + v.fsTerm + " " + common.Q(v.goPath()) + " " + common.Q(c.Root) + " " + common.Q(c.Path)
+	case "mainroot":
+		return "C16 mainroot " + common.Q(wd) + " " + common.Q(v.nameOf(c.Name)) + " " + common.Q(v.goPath()) + " " + common.Q(c.Root)
+	case "relpath":
+		return "C16 relpath " + common.Q(c.Root) + " " + common.Q(c.Path)
 	default:
 		return "C16 pkgdir " + v.fsTerm + " " + common.Q(v.goPath()) + " " + common.Q(c.Root) + " " + common.Q(c.Path)
 	}
+}
+
+// nameOf: the input file name of a mainroot case; "" and the default name are kept, anything else is a
+// file of the tree (absolute on disk, so that the process's working directory does not matter).
+func (v *view) nameOf(name string) string {
+	if name == "" || name == "_.go" {
+		return name
+	}
+	return v.abs(name)
 }
 
 func implStruct(v *view, i *interp.Interpreter, c caseT) (out string) {
@@ -89,8 +105,18 @@ func implStruct(v *view, i *interp.Interpreter, c caseT) (out string) {
 			return "err"
 		}
 		return "ok:" + common.Q(p)
+	case "mainroot":
+		return common.Q(i.VerifMainRoot(v.nameOf(c.Name), c.Root))
+	case "relpath":
+		return common.Q(interp.VerifRelativePath(c.Root, c.Path))
 	default:
-		dir, rp, err := i.VerifPkgDir(v.goPath(), c.Root, c.Path)
+		var dir, rp string
+		var err error
+		if c.Kind == "gopkgdir" {
+			dir, rp, err = i.VerifGoPkgDir(v.goPath(), c.Root, c.Path)
+		} else {
+			dir, rp, err = i.VerifPkgDir(v.goPath(), c.Root, c.Path)
+		}
 		if err != nil {
 			if strings.HasPrefix(err.Error(), "unable to find source related to") {
 				return "notfound"
@@ -125,7 +151,7 @@ func (h *harness) structGroup(t *Tree, pkgs []*pkgInfo, cases []caseT, disk bool
 	}
 	lines := make([]string, len(cases))
 	for k, c := range cases {
-		lines[k] = structLine(v, c)
+		lines[k] = structLine(v, c, h.cwd)
 	}
 	answers, err := h.drv.AskAll(lines)
 	if err != nil {
@@ -136,7 +162,7 @@ func (h *harness) structGroup(t *Tree, pkgs []*pkgInfo, cases []caseT, disk bool
 		c.Disk = disk
 		ans := common.Fields(answers[k])
 		y, g := ans["y"], ans["g"]
-		if y == "" || (c.Kind == "pkgdir" && g == "") {
+		if y == "" || (c.Kind == "gopkgdir" && g == "") {
 			run.Errorf("driver answered %q to %q", answers[k], lines[k])
 			continue
 		}
@@ -148,41 +174,48 @@ func (h *harness) structGroup(t *Tree, pkgs []*pkgInfo, cases []caseT, disk bool
 		run.Count(key, c.Kind != "eff" || strings.Contains(c.Path, "/") || strings.Contains(c.Root, "/"))
 		run.Hit("kind:" + c.Kind + fsName(disk))
 		withTree := func() caseT { cc := c; cc.Tree = t; return cc }
-		if len(run.Res.Samples) < 4 && c.Kind == "pkgdir" && strings.HasPrefix(im, "found") && strings.Contains(im, "vendor") {
+		if len(run.Res.Samples) < 4 && c.Kind == "gopkgdir" && strings.HasPrefix(im, "found") && strings.Contains(im, "vendor") {
 			run.Sample(map[string]interface{}{"case": withTree(), "impl": strip(im, top), "model": strip(y, top), "spec": strip(g, top)}, 8)
 		}
 		if im != y {
 			run.Disagree(common.Disagreement{Kind: "impl-vs-model", Input: withTree(), Impl: strip(im, top), Model: strip(y, top)})
 		}
-		if c.Kind != "pkgdir" {
+		if c.Kind != "gopkgdir" {
 			continue
 		}
+		// the property: what importSrc's resolution finds is what the Go rule prescribes. noRoot stands for an
+		// importer that is not below GOPATH/src: no vendor directory applies to it.
 		rf := v.refResolve(c.Root, c.Path)
-		if !importer[c.Root] || !normalPath(c.Path) {
-			run.Hit("pkgdir:not-an-importer")
+		if c.Root == interp.VerifNoRoot {
+			rf = "none"
+			if d := v.gs() + "/" + c.Path; v.dirSet[d] {
+				rf = d
+			}
+		} else if !importer[c.Root] {
+			run.Hit("gopkgdir:not-an-importer")
 			continue // the Go rule says nothing about roots that are not importing directories
 		}
-		run.Hit("pkgdir:ref=" + outcomeClass(rf))
+		if !normalPath(c.Path) || vendorElem(c.Path) {
+			run.Hit("gopkgdir:not-an-import-path")
+			continue // importSrc never passes such a path on (unclean, or rejected for its vendor element)
+		}
+		run.Hit("gopkgdir:ref=" + outcomeClass(rf))
 		if common.Q(rf) != g && !(rf == "none" && g == "none") {
 			run.Disagree(common.Disagreement{Kind: "spec-vs-ref", Input: withTree(), Spec: strip(g, top), Ref: strip(rf, top)})
 		}
 		implDir := "none"
 		if strings.HasPrefix(im, "found:") {
-			implDir, _, _ = i.VerifPkgDir(v.goPath(), c.Root, c.Path)
+			implDir, _, _ = i.VerifGoPkgDir(v.goPath(), c.Root, c.Path)
 		} else if im != "notfound" {
 			implDir = im
 		}
 		if implDir != rf {
-			sig := classPkgDir(v, c.Root, c.Path)
-			d := common.Disagreement{Kind: "impl-vs-ref", Input: withTree(), Impl: strip(implDir, top), Model: strip(y, top), Ref: strip(rf, top), Finding: sig}
-			if im != y || sig == "" {
-				d.Finding = ""
-				d.Note = "differs from the reference inside the proved domain or differs from the model of the unchanged code (class " + sig + ")"
-			}
-			run.Hit("class:" + sig)
-			run.Disagree(d)
+			// no divergence class is left for the resolution of one import: every difference is a violation
+			run.Hit("gopkgdir:differs")
+			run.Disagree(common.Disagreement{Kind: "impl-vs-ref", Input: withTree(), Impl: strip(implDir, top), Model: strip(y, top), Ref: strip(rf, top),
+				Note: "the directory found by goPkgDir is not the one of the Go rule (pkgDir_eq_spec has no excluded class)"})
 		} else {
-			run.Hit("class:agree")
+			run.Hit("gopkgdir:agree")
 		}
 	}
 }
@@ -209,6 +242,12 @@ func outcomeClass(rf string) string {
 		return "vendor"
 	}
 	return "gopath"
+}
+
+// vendorElem: an element before the last one is `vendor` (cmd/go: "must be imported as …").
+func vendorElem(p string) bool {
+	el := strings.Split(p, "/")
+	return in(el[:len(el)-1], "vendor")
 }
 
 func normalPath(p string) bool {
@@ -502,7 +541,7 @@ func (h *harness) replayKnown(c caseT) (bool, string) {
 		im := implRunIsolated(c, 8*time.Second)
 		return !sameAs(im, rf), "impl=" + im.String() + " ref=" + rf.String()
 	}
-	if c.Kind != "pkgdir" {
+	if c.Kind != "pkgdir" && c.Kind != "gopkgdir" {
 		return false, "unsupported replay kind " + c.Kind
 	}
 	top := ""
@@ -519,7 +558,7 @@ func (h *harness) replayKnown(c caseT) (bool, string) {
 		opts.SourcecodeFilesystem = c.Tree.mapFS()
 	}
 	i := interp.New(opts)
-	d, _, err := i.VerifPkgDir(v.goPath(), c.Root, c.Path)
+	d, _, err := i.VerifGoPkgDir(v.goPath(), c.Root, c.Path)
 	if err != nil {
 		d = "none"
 	}
